@@ -18,7 +18,8 @@
  * Block writer contract: any result, any location.
  *
  * Scenario bound: <= NB blocks inside the pool, all plain data blocks
- * (no IS_FRAGMENT / FRAGMENT_BLOCK, no inode attached), io_queue initially
+ * (no IS_FRAGMENT / FRAGMENT_BLOCK, no inode attached; the flag word of each
+ * block is a concrete case parameter), io_queue initially
  * empty, no fragment table.
  */
 #ifndef C09_BP_ENV_H
@@ -159,13 +160,27 @@ static int stub_write_data_block(sqfs_block_writer_t *wr, void *user,
 	return err;
 }
 
-static void c09_bp_block(c09_blk_t *w)
+/* the block kind is a tag: concrete per case (-DFL0.. -DFL3), never one of
+ * the fragment kinds in this scenario */
+#ifndef FL0
+#define FL0 0
+#endif
+#ifndef FL1
+#define FL1 SQFS_BLK_LAST_BLOCK
+#endif
+#ifndef FL2
+#define FL2 0
+#endif
+#ifndef FL3
+#define FL3 0
+#endif
+
+static void c09_bp_block(c09_blk_t *w, sqfs_u32 flags)
 {
 	w->b.next = NULL;
 	w->b.inode = NULL;
 	w->b.io_seq_num = verif_nd_u32("blk.io_seq_num");
-	w->b.flags = verif_nd_u32("blk.flags") &
-		~(sqfs_u32)(SQFS_BLK_IS_FRAGMENT | SQFS_BLK_FRAGMENT_BLOCK);
+	w->b.flags = flags;
 	w->b.size = verif_nd_u32("blk.size");
 	VERIF_ASSUME(w->b.size <= BLK_DATA);
 	w->b.checksum = verif_nd_u32("blk.checksum");
